@@ -176,14 +176,15 @@ def classify(v, progs, preds, results, known_devs, what_of, fronts=("c",)):
     if suspects and known_devs:
         sp = [by_id[s["id"]] for s in suspects]
         allp, _ = predict(sp, dev=known_devs, check_props=False)
-        single = {d: predict(sp, dev=[d], check_props=False)[0] for d in known_devs} if len(known_devs) > 1 else {known_devs[0]: allp}
+        # leave-one-out: a deviation is responsible for a case iff switching it off changes the as-built prediction
+        without = {d: predict(sp, dev=[x for x in known_devs if x != d], check_props=False)[0] for d in known_devs}
     for res in suspects:
         pred = preds[res["id"]]
         explained = False
         if known_devs:
             ab = allp[res["id"]]
             if all(matches(res["obs"]["brush/" + fr], ab) for fr in fronts):
-                resp = [d for d in known_devs if (single[d][res["id"]]["out"], single[d][res["id"]]["exit"]) != (pred["out"], pred["exit"])]
+                resp = [d for d in known_devs if (without[d][res["id"]]["out"], without[d][res["id"]]["exit"]) != (ab["out"], ab["exit"])]
                 if resp:
                     explained = True
                     for d in resp:
